@@ -182,18 +182,23 @@ Definition new_table (t : name) (cs : list cspec) (pk : list name) : tbl :=
 Fixpoint remove_first_trig (g : name) (l : list trig) : list trig :=
   match l with [] => [] | x :: r => if N.eqb (gname x) g then r else x :: remove_first_trig g r end.
 
+(* a table with a hidden system column is wrapped so that it no longer "supports check constraint operations":
+   DROP CHECK fails, and the check guards / clean-up of RENAME COLUMN and DROP COLUMN are skipped *)
+Definition has_hidden (t : tbl) : bool := existsb (fun c => negb (visible c)) (tcols t).
+
 Definition fk_uses_col (c : cat) (t x : name) : bool :=
-  existsb (fun f => (N.eqb (ftable f) t && mem x (fcols f)) || (N.eqb (fparent f) t && mem x (fpcols f))) (fks c).
+  (* ValidateDropColumn compares the name with fk.Columns (the CHILD columns) for declared and for referencing keys *)
+  existsb (fun f => (N.eqb (ftable f) t || N.eqb (fparent f) t) && mem x (fcols f)) (fks c).
 
 Definition drop_col_tbl (x : name) (t : tbl) : tbl :=
   let d := index_of x (colnames t) in
   mktbl (tname t) (filter (fun c => negb (N.eqb (cname c) x)) (tcols t)) (unbump_pk d (tpk t))
         (filter (fun i => negb (isnil (icols i)))
                 (map (fun i => mkidx (iname i) (filter (fun c => negb (N.eqb c x)) (icols i)) (iuniq i) (itab i) (ipre i)) (tidx t)))
-        (filter (fun k => negb (N.eqb (kcol k) x)) (tchk t)) (tmap t).
+        (if has_hidden t then tchk t else filter (fun k => negb (N.eqb (kcol k) x)) (tchk t)) (tmap t).
 
 Definition drop_chk_col (x : name) (t : tbl) : tbl :=
-  mktbl (tname t) (tcols t) (tpk t) (tidx t) (filter (fun k => negb (N.eqb (kcol k) x)) (tchk t)) (tmap t).
+  mktbl (tname t) (tcols t) (tpk t) (tidx t) (if has_hidden t then tchk t else filter (fun k => negb (N.eqb (kcol k) x)) (tchk t)) (tmap t).
 
 Definition rename_col_tbl (x y : name) (t : tbl) : tbl :=
   let m := pk_name_map O (pk_cols t) in
@@ -301,7 +306,7 @@ Definition step (o : op) (c : cat) : bool * cat :=
       end
     end
   | RenameColumn t x y =>
-    match upd c t (fun tb => has_col x tb && negb (has_col y tb) && negb (existsb (fun k => N.eqb (kcol k) x) (tchk tb))
+    match upd c t (fun tb => has_col x tb && negb (has_col y tb) && (has_hidden tb || negb (existsb (fun k => N.eqb (kcol k) x) (tchk tb)))
                              && negb (fn_depends x tb))
               (rename_col_tbl x y) with
     | (true, c') =>
@@ -355,7 +360,9 @@ Definition step (o : op) (c : cat) : bool * cat :=
   | AddCheck t k x b =>
     upd c t (fun tb => has_col x tb && negb (existsb (fun q => N.eqb (kname q) k) (tchk tb))) (add_chk_tbl (mkchk k x b))
   | DropCheck t k =>
-    upd c t (fun tb => existsb (fun q => N.eqb (kname q) k) (tchk tb)) (drop_chk_tbl k)
+    (* with a functional index DROP CHECK answers "the table does not support check constraint operations" (ADD CHECK works) *)
+    upd c t (fun tb => existsb (fun q => N.eqb (kname q) k) (tchk tb) && negb (has_hidden tb))
+        (drop_chk_tbl k)
   | CreateView v b cs =>
     if negb (has_tbl v c) && negb (has_view v c) && negb (isnil cs) && nodupb cs && view_resolves c (mkview v b cs)
     then (true, mkcat (tables c) (fks c) (views c ++ [mkview v b cs]) (trigs c) (procs c)) else (false, c)
@@ -562,4 +569,7 @@ Definition show_indexes (c : cat) (n : name) : option (list row) :=
   option_map (fun t => flat_map (show_index_rows t) (all_idx t)) (find_tbl n c).
 
 (* SHOW CREATE TABLE t: the PRIMARY KEY (...) part list, in key order ([] when the table has no primary key) *)
-Definition show_create_pk (c : cat) (n : name) : option row := option_map pk_cols (find_tbl n c).
+(* when the table has a hidden system column the plan carries no primary key schema and produceCreateTableStatement falls
+   back to the columns flagged PrimaryKey, in COLUMN order *)
+Definition show_create_pk (c : cat) (n : name) : option row :=
+  option_map (fun t => if has_hidden t then map cname (filter (fun x => cpk x && visible x) (tcols t)) else pk_cols t) (find_tbl n c).
